@@ -7,7 +7,7 @@ git apply --check /verif/seeded/$id/patch.diff || { echo "PATCH DOES NOT APPLY";
 git apply /verif/seeded/$id/patch.diff
 cd /verif
 [ -f evidence/$prop.json ] && cp evidence/$prop.json /tmp/evidence_$prop.save
-if [ -n "$filt" ]; then timeout 3000 ./bin/vcheck -prop $prop -tier quick -harness "$filt"; else timeout 3000 ./bin/vcheck -prop $prop -tier quick; fi
+if [ -n "$filt" ]; then timeout 900 ./bin/vcheck -prop $prop -tier quick -harness "$filt"; else timeout 900 ./bin/vcheck -prop $prop -tier quick; fi
 rc=$?
 [ -f /tmp/evidence_$prop.save ] && mv /tmp/evidence_$prop.save evidence/$prop.json
 git -C /repo checkout -- .
